@@ -15,6 +15,7 @@ import Np.Model.Construct
 import Np.Model.RoutingTables
 import Np.Model.Maps
 import Np.Model.Div
+import Np.Model.Text
 /-! line-protocol driver: one JSON case per line on stdin, the model's answer per line on stdout -/
 open Lean Np Np.Shape
 
@@ -384,6 +385,18 @@ def runCase (j : Json) : E Json := do
         ("elements", Json.arr (elems.map fun r => match r with
           | some qr => Json.mkObj [("q", showTerms qr.1), ("r", showTerms qr.2)]
           | none => Json.mkObj [("timeout", true)]).toArray)])
+  | "header" =>
+    let names ← jNatRows (← j.getObjVal? "names")
+    let keys ← jNatRows (← j.getObjVal? "keys")
+    let shape ← jNats (← j.getObjVal? "shape")
+    let h : Text.Header := ⟨names, keys, shape⟩
+    let text := Text.format h
+    let back := Text.parse text
+    pure (Json.mkObj [("status", "ok"), ("kind", "header"), ("text", toJson text),
+      ("roundtrip", toJson (back == some h)),
+      ("parsed", match back with
+        | some b => Json.mkObj [("names", toJson b.names), ("keys", toJson b.keys), ("shape", toJson b.shape)]
+        | none => Json.null)])
   | _ => throw s!"bad-op {op}"
 
 def step (line : String) : String :=
